@@ -47,8 +47,6 @@ CHECK = Check(
         "and separate -parameters/-initial-states/-input-timeseries/-final-states files are outside the model)",
         "all stored input series have the same length T; a kernel that panics kills the process (out of scope: the "
         "generated rating tables cover every inflow that reaches their node, no NaN gaps in graphs with such a node)",
-        "every model type with dimensioned parameters has at least one node (ow-sim panics at start-up on an empty "
-        "parameter table of such a model: FindDimensions → Maximum() of an empty array; observation, `table-empty=1`)",
     ],
 )
 
